@@ -811,19 +811,20 @@ def rule_r6(ctx):
     own = frozenset(f.key for f in muts)
     for f in muts:
         sites = c06.analyse_mutator(ef, f, used, own)
-        bad = [(m, c, u) for m, c, u, _ in sites if u and (set(m.qfields) & set(BOOKKEEPING_Q))]
+        # a write event counts when it touches a bookkeeping field itself, or is a call of another public mutator (all
+        # of which maintain bookkeeping) - the latter keeps the verdict independent of how deep the resolver looks
+        bad = [(m, c, u) for m, c, u, _ in sites if u and ((set(m.qfields) & set(BOOKKEEPING_Q)) or (m.callee is not None and m.callee.key in own))]
         if not bad:
             ctx.ob("R6", f"{f.local}: no bookkeeping write precedes a feasible rejection", True,
                    how="C06 forward may-analysis (M before C) filtered to use-def / ownership fields")
             continue
         for m, c, undis in bad:
             guards = sorted(r.key for r in undis)
-            h = hashlib.sha1("|".join(_re.sub(r"\$\d+", "$", g) for g in guards).encode()).hexdigest()[:6]
             ctx.ob("R6", f"{f.local}: {short(m.node)[:50]} … then {short(c.node)[:50]}", False, how="M on a bookkeeping field reaches C")
             ctx.violation("R6", f, c.node,
-                          f"a bookkeeping field ({sorted(set(m.qfields) & set(BOOKKEEPING_Q))}) is written ({m.desc}) and a later point on the same "
+                          f"a bookkeeping field ({sorted(set(m.qfields) & set(BOOKKEEPING_Q)) or 'through ' + (m.callee.local if m.callee else '?')}) is written ({m.desc}) and a later point on the same "
                           "path can still reject: " + "; ".join(guards[:3]) + " - after the rejected call the use-def / ownership links are inconsistent",
-                          construct=f"{short(m.node)[:70]} => {short(c.node)[:70]} [guards:{h}]")
+                          construct=f"{short(m.node)[:70]} => {short(c.node)[:70]}")
 
 
 def run(ctx):
